@@ -49,7 +49,18 @@ func (*StringCastingMangler) Unmangle(sf reflect.StructField, vs []FieldValueTup
 		castTo = sf.Type.Elem()
 	}
 
-	return parse.String(str, castTo)
+	val, parseErr := parse.String(str, castTo)
+	if parseErr != nil {
+		return val, parseErr
+	}
+	// A user-declared pointer to a slice or map: parse.String returns the
+	// slice or map itself, the field needs a pointer to it.
+	if sf.Type.Kind() == reflect.Ptr && val.Type() == sf.Type.Elem() {
+		ptr := reflect.New(sf.Type.Elem())
+		ptr.Elem().Set(val)
+		return ptr, nil
+	}
+	return val, nil
 }
 
 // ShouldRecurse always returns true in order to walk nested structs.
